@@ -17,10 +17,14 @@ class VirtualTime:
         self._seq = 0
         self.sleep_hook = None  # called as sleep_hook(seconds) instead of jumping
         self.sleeps = []
+        self.tick = 0.0  # simulated CPU cost: every clock read advances time by this much
 
     # ---- the `time` module surface used by dnspython ----
     def time(self):
-        return self.now
+        t = self.now
+        if self.tick:
+            self.now = t + self.tick
+        return t
 
     def monotonic(self):
         return self.now
@@ -44,6 +48,7 @@ class VirtualTime:
         self._seq = 0
         self.sleeps = []
         self.sleep_hook = None
+        self.tick = 0.0
 
     def elapsed(self):
         return self.now - self.start
